@@ -1,5 +1,257 @@
 import Driver.Proto
+import TonicModel.Model.WebServer
+import TonicModel.Spec.GrpcWeb
 namespace DriverC16
-/-- stub: property not yet claimed -/
-def handle (_case _obs : List String) : String × String := ("unclaimed", "fail:unclaimed")
+open Proto WebServer
+open TMap (Pair str)
+
+/-! token helpers (shared with C17's driver) -/
+
+def parsePairs : Nat → List String → Option (List Pair × List String)
+  | 0, r => some ([], r)
+  | n + 1, k :: v :: r => do
+    let kb ← unhex k
+    let vb ← unhex v
+    let (ps, r') ← parsePairs n r
+    some ((kb, vb) :: ps, r')
+  | _ + 1, _ => none
+
+def parseEvsAux : Nat → List String → Option (List BodyEv)
+  | _, [] => some []
+  | 0, _ => none
+  | f + 1, "d" :: h :: r => do
+    let b ← unhex h
+    let es ← parseEvsAux f r
+    some (.data b :: es)
+  | f + 1, "e" :: r => (parseEvsAux f r).map (.err :: ·)
+  | f + 1, "p" :: r => (parseEvsAux f r).map (.pending :: ·)
+  | f + 1, "t" :: n :: r => do
+    let n ← nat? n
+    let (ps, r') ← parsePairs n r
+    let es ← parseEvsAux f r'
+    some (.trailers ps :: es)
+  | _ + 1, _ => none
+
+def parseEvs (ts : List String) : Option (List BodyEv) := parseEvsAux (ts.length + 1) ts
+
+def renderPairs (ps : List Pair) : List String :=
+  ps.flatMap (fun p => [hex p.1, hex p.2])
+
+def renderOuts : List Out → List String
+  | [] => []
+  | .data b :: r => "d" :: hex b :: renderOuts r
+  | .trailers h :: r => "t" :: toString h.length :: (renderPairs h ++ renderOuts r)
+  | .err :: r => "err" :: renderOuts r
+  | .eos :: r => "eos" :: renderOuts r
+
+/-- observed frame tokens back into `Out`s -/
+def parseOutsAux : Nat → List String → Option (List Out)
+  | _, [] => some []
+  | 0, _ => none
+  | f + 1, "d" :: h :: r => do
+    let b ← unhex h
+    let os ← parseOutsAux f r
+    some (.data b :: os)
+  | f + 1, "err" :: r => (parseOutsAux f r).map (.err :: ·)
+  | f + 1, "eos" :: r => (parseOutsAux f r).map (.eos :: ·)
+  | f + 1, "t" :: n :: r => do
+    let n ← nat? n
+    let (ps, r') ← parsePairs n r
+    let os ← parseOutsAux f r'
+    some (.trailers ps :: os)
+  | _ + 1, _ => none
+
+def parseOuts (ts : List String) : Option (List Out) := parseOutsAux (ts.length + 1) ts
+
+def optHex (s : String) : Option (Option Bytes) :=
+  if s = "none" then some none else (unhex s).map some
+
+def tokOpt : Option Bytes → String
+  | none => "none"
+  | some b => hex b
+
+def join (ts : List String) : String := String.intercalate " " ts
+
+def onlyData : List Out → Bool
+  | [] => true
+  | .data _ :: r => onlyData r
+  | _ => false
+
+/-- all `Out`s are data except a final `eos` -/
+def dataThenEos (o : List Out) : Bool :=
+  o.getLast? == some .eos && onlyData o.dropLast
+
+def isData : BodyEv → Bool
+  | .data _ => true
+  | _ => false
+
+def isTrailers : BodyEv → Bool
+  | .trailers _ => true
+  | _ => false
+
+def dataChunks : List BodyEv → List Bytes
+  | [] => []
+  | .data b :: r => b :: dataChunks r
+  | _ :: r => dataChunks r
+
+def splitLast {α : Type} (l : List α) : Option (List α × α) :=
+  match l.getLast? with
+  | some x => some (l.dropLast, x)
+  | none => none
+
+/-! ### spec verdicts (written against `Spec.GrpcWeb`, evaluated on the OBSERVED output) -/
+
+/-- response side: `evs` is what the inner service's body produced. -/
+def respVerdict (text : Bool) (evs : List BodyEv) (obs : List Out) : String :=
+  let es := evs.filter notPending
+  match es.find? (fun e => !isData e) with
+  | none =>
+    -- no trailers, no error: the body is the inner bytes and nothing else
+    let raw := if text then Spec.GrpcWeb.b64StreamDecode (dataOf obs) else some (dataOf obs)
+    verdict [("only-data-then-eos", dataThenEos obs), ("body-identical", raw == some (flat es))]
+  | some .err =>
+    -- the first non-data event is an error
+    verdict [("error-not-clean", obs.getLast? == some .err)]
+  | some (.trailers t) =>
+    match splitLast es with
+    | some (ds, .trailers _) =>
+      if ds.all isData then
+        let body := dataOf obs
+        let inner := flat ds
+        let raw := if text then Spec.GrpcWeb.b64StreamDecode body else some body
+        match raw with
+        | none => "fail:text-body-not-base64"
+        | some raw =>
+          let tail := raw.drop inner.length
+          let tr := match Spec.GrpcWeb.parseItems tail with
+            | some [.trailers t'] => some t'
+            | _ => none
+          let whole : Bool := match Spec.GrpcWeb.parseItems inner, tr with
+            | some msgs, some t' => Spec.GrpcWeb.read text body == some (msgs ++ [.trailers t'])
+            | none, _ => true
+            | _, none => false
+          verdict [("only-data-then-eos", dataThenEos obs),
+                   ("message-bytes-identical", raw.take inner.length == inner),
+                   ("exactly-one-trailers-frame", tr.isSome),
+                   ("every-trailer-listed", match tr with
+                      | some t' => Spec.GrpcWeb.sameTrailers t' t && t'.length == t.length
+                      | none => false),
+                   ("whole-body-reads", whole)]
+      else "ok"   -- frames after the trailers: not an HTTP body, outside the property
+    | _ => "ok"
+  | some _ => "ok"
+
+/-- padding only in the final quantum (a single base64 stream) -/
+def canonicalText (s : Bytes) : Bool := (s.take (s.length - 2)).all (· != 61)
+
+/-- request side: `evs` is the grpc-web request body, `obs` the frames the inner service got. -/
+def reqVerdict (text : Bool) (evs : List BodyEv) (obs : List Out) : String :=
+  let es := evs.filter notPending
+  match es.find? (fun e => !isData e) with
+  | none =>
+    if text then
+      match Spec.GrpcWeb.b64StreamDecode (flat es) with
+      | none => verdict [("malformed-text-is-error", obs.getLast? == some .err)]
+      | some payload =>
+        let good := dataThenEos obs && dataOf obs == payload
+        if canonicalText (flat es) then verdict [("payload-identical", good)]
+        else verdict [("payload-identical-or-error", good || obs.getLast? == some .err)]
+    else
+      verdict [("chunks-identical", obs == (dataChunks es).map Out.data ++ [.eos])]
+  | some .err => verdict [("error-not-clean", obs.getLast? == some .err)]
+  | some _ => "ok"
+
+def kindReq : List BodyEv := [.data (str "AAAA")]
+def kindResp : List BodyEv :=
+  [.data [0, 0, 0, 0, 1, 7], .trailers [(str "grpc-status", str "0")]]
+
+def firstFail (vs : List String) : String :=
+  match vs.find? (· != "ok") with
+  | some v => v
+  | none => "ok"
+
+def handle (case obs : List String) : String × String :=
+  match case with
+  | "resp" :: acc :: evToks =>
+    match optHex acc, parseEvs evToks with
+    | some accept, some evs =>
+      let model := match classify (str "POST") false (some GRPC_WEB) accept with
+        | .web _ a => join ("200" :: hex (toContentType a) :: renderOuts (respRun a evs))
+        | .status c => s!"{c} skipped"
+        | .pass => "pass"
+      let text := (accept.bind Spec.GrpcWeb.webContentType) == some true
+      let v := match obs with
+        | st :: ct :: frames =>
+          match parseOuts frames with
+          | some o =>
+            firstFail [verdict [("status-200", st == "200"),
+                                ("content-type", ct == hex (Spec.GrpcWeb.responseContentType text))],
+                       respVerdict text evs o]
+          | none => "fail:unreadable-observation"
+        | _ => "fail:unreadable-observation"
+      (model, v)
+    | _, _ => bad
+  | "req" :: ct :: evToks =>
+    match optHex ct, parseEvs evToks with
+    | some ct, some evs =>
+      let model := match classify (str "POST") false ct none with
+        | .web e _ =>
+          join (["200", "ct", hex GRPC_CONTENT_TYPE, "te", hex (str "trailers"), "ae",
+                 hex (str "identity,deflate,gzip"), "cl", "0", "xu", "2", hex (str "a"), hex (str "b"), "|"]
+                ++ renderOuts (reqRun e evs))
+        | .status c => s!"{c} skipped"
+        | .pass => "pass"
+      let v := match ct.bind Spec.GrpcWeb.webContentType with
+        | none => verdict [("not-grpc-web-400", obs == ["400", "skipped"])]
+        | some text =>
+          match obs with
+          | st :: "ct" :: c :: "te" :: te :: "ae" :: _ :: "cl" :: cl :: "xu" :: "2" :: u1 :: u2 :: "|" :: frames =>
+            match parseOuts frames with
+            | some o =>
+              firstFail [verdict [("status-200", st == "200"),
+                                  ("grpc-content-type", c == hex Spec.GrpcWeb.grpcContentType),
+                                  ("te-trailers", te == hex (str "trailers")),
+                                  ("content-length-removed", cl == "0"),
+                                  ("user-headers-kept", u1 == hex (str "a") && u2 == hex (str "b"))],
+                         reqVerdict text evs o]
+            | none => "fail:unreadable-observation"
+          | _ => "fail:unreadable-observation"
+      (model, v)
+    | _, _ => bad
+  | ["kind", m, ver, ct, acc] =>
+    match unhex m, optHex ct, optHex acc with
+    | some method, some ct, some accept =>
+      let isH2 := ver == "h2"
+      let passLine := join (["200", "called", "same", tokOpt ct] ++ renderOuts [.data (str "AAAA"), .eos]
+            ++ ["|", hex (str "application/grpc")]
+            ++ renderOuts [.data [0, 0, 0, 0, 1, 7], .trailers [(str "grpc-status", str "0")], .eos])
+      let model := match classify method isH2 ct accept with
+        | .web e a =>
+          join (["200", "called", "same", hex GRPC_CONTENT_TYPE] ++ renderOuts (reqRun e kindReq)
+                ++ ["|", hex (toContentType a)] ++ renderOuts (respRun a kindResp))
+        | .status c => s!"{c} skipped eos"
+        | .pass => passLine
+      let v := match Spec.GrpcWeb.expect method isH2 ct accept with
+        | .status c => verdict [("immediate-status", obs == [toString c, "skipped", "eos"])]
+        | .pass => verdict [("passed-through-untouched", join obs == passLine)]
+        | .web rt pt =>
+          match obs with
+          | st :: called :: _ :: c :: rest =>
+            let reqFrames := rest.takeWhile (· != "|")
+            let after := (rest.dropWhile (· != "|")).drop 1
+            match parseOuts reqFrames, after with
+            | some ro, rct :: respFrames =>
+              match parseOuts respFrames with
+              | some po =>
+                firstFail [verdict [("status-200", st == "200"), ("inner-called", called == "called"),
+                                    ("grpc-content-type", c == hex Spec.GrpcWeb.grpcContentType),
+                                    ("response-content-type", rct == hex (Spec.GrpcWeb.responseContentType pt))],
+                           reqVerdict rt kindReq ro, respVerdict pt kindResp po]
+              | none => "fail:unreadable-observation"
+            | _, _ => "fail:unreadable-observation"
+          | _ => "fail:translated-request-expected"
+      (model, v)
+    | _, _, _ => bad
+  | _ => bad
+
 end DriverC16
